@@ -1285,7 +1285,331 @@ def t15_check_errors():
 
 
 
-ITEMS = {"T1": t1_fields, "T2": t2_whitelist, "T3": t3_file_modes, "T4": t4_conv_axis, "T5": t5_flatten, "T6": t6_lif, "T7": t7_cuba, "T8": t8_unique_name, "T9": t9_neuron_shapes, "T10": t10_guards, "T11": t11_dict_overrides, "T12": t12_graph_interface, "T13": t13_write_shape, "T14": t14_worklist, "T15": t15_check_errors}
+
+# ---------------------------------------------------------------------------------------
+# T16  effect summary of the observers (C17): which statements of to_dict / inputs / outputs / _check_types / write
+#      store through an object reachable from the observed graph
+# ---------------------------------------------------------------------------------------
+_MUTATORS = {"update", "pop", "popitem", "clear", "setdefault", "append", "extend", "insert", "remove", "sort", "reverse",
+             "add", "discard", "fill", "resize", "setflags", "put", "itemset", "partition", "byteswap", "setfield",
+             "__setitem__", "__delitem__", "__setattr__", "__delattr__", "move_to_end"}
+# calls that hand back an object sharing nothing mutable with their argument
+_FRESH_FUNCS = {"asdict", "deepcopy", "copy.deepcopy", "len", "str", "repr", "type", "isinstance", "any", "all", "print", "bool", "int",
+                "float", "hash", "id", "np.array_equal", "np.array", "np.shape", "np.ndim", "np.size", "sorted", "format", "tuple",
+                "np.array_equiv", "np.allclose", "np.prod", "issubclass", "hasattr", "getattr"}
+# calls whose result aliases their argument (shallow containers, views)
+_ALIAS_FUNCS = {"list", "dict", "set", "iter", "next", "enumerate", "zip", "reversed", "np.asarray", "np.atleast_1d", "np.squeeze",
+                "np.ravel", "np.reshape", "np.transpose", "copy", "copy.copy", "vars", "filter", "map"}
+_FRESH_METHODS = {"to_dict", "tolist", "tobytes", "astype", "decode", "encode", "format", "join", "startswith", "endswith", "count",
+                  "index", "all", "any", "sum", "item", "__len__", "__repr__", "__str__"}
+
+
+class _Effects(ast.NodeVisitor):
+    def __init__(self, item, where, live, local_funcs):
+        self.item, self.where, self.live = item, where, set(live)
+        self.local_funcs = local_funcs       # name -> FunctionDef analysed when called with a live argument
+        self.stores, self.escapes, self.calls_local = [], [], []
+        self.D = ExprT(item, "num", {})
+
+    def dotted(self, e):
+        try:
+            return self.D.dotted(e)
+        except Exception:
+            return None
+
+    def tainted(self, e):
+        if isinstance(e, ast.Name):
+            return e.id in self.live
+        if isinstance(e, (ast.Attribute, ast.Subscript, ast.Starred)):
+            return self.tainted(e.value)
+        if isinstance(e, ast.IfExp):
+            return self.tainted(e.body) or self.tainted(e.orelse)
+        if isinstance(e, ast.BoolOp):
+            return any(self.tainted(v) for v in e.values)
+        if isinstance(e, ast.NamedExpr):
+            return self.tainted(e.value)
+        if isinstance(e, (ast.List, ast.Tuple, ast.Set)):
+            return any(self.tainted(v) for v in e.elts)
+        if isinstance(e, ast.Dict):
+            return any(v is not None and self.tainted(v) for v in e.values)
+        if isinstance(e, (ast.ListComp, ast.SetComp, ast.GeneratorExp, ast.DictComp)):
+            saved = set(self.live)
+            for g in e.generators:
+                if self.tainted(g.iter):
+                    self.bind(g.target)
+            r = self.tainted(e.value if isinstance(e, ast.DictComp) else e.elt)
+            self.live = saved
+            return r
+        if isinstance(e, ast.Call):
+            f = e.func
+            if isinstance(f, ast.Attribute) and isinstance(f.value, ast.Call) and self.dotted(f.value.func) == "super":
+                return False
+            name = self.dotted(f)
+            args = list(e.args) + [k.value for k in e.keywords]
+            if name in _FRESH_FUNCS:
+                return False
+            if name in _ALIAS_FUNCS:
+                return any(self.tainted(a) for a in args)
+            if isinstance(f, ast.Attribute) and self.tainted(f.value):
+                return f.attr not in _FRESH_METHODS
+            return False
+        return False
+
+    def bind(self, target):
+        for n in ast.walk(target):
+            if isinstance(n, ast.Name):
+                self.live.add(n.id)
+
+    def note(self, node, what):
+        self.stores.append((self.where, f"line {node.lineno - self.base + 1}: {what}"))
+
+    def run(self, fn):
+        self.base = fn.lineno
+        # two passes so that aliases bound late in a loop body are seen at its top
+        for _ in range(2):
+            self.stores, self.escapes, self.calls_local = [], [], []
+            for st in fn.body:
+                self.visit(st)
+        return self
+
+    def visit_FunctionDef(self, node):
+        pass                                   # nested definitions are analysed at their call sites
+
+    def target(self, t, node):
+        if isinstance(t, (ast.Tuple, ast.List)):
+            for x in t.elts:
+                self.target(x, node)
+        elif isinstance(t, (ast.Attribute, ast.Subscript)) and self.tainted(t.value):
+            self.note(node, "store through " + ast.unparse(t))
+
+    def visit_Assign(self, node):
+        self.visit(node.value)
+        for t in node.targets:
+            self.target(t, node)
+            if self.tainted(node.value):
+                if isinstance(t, ast.Name):
+                    self.live.add(t.id)
+                elif isinstance(t, (ast.Tuple, ast.List)):
+                    self.bind(t)
+            elif isinstance(t, ast.Name):
+                self.live.discard(t.id) if not self._in_loop else None
+
+    _in_loop = False
+
+    def visit_AnnAssign(self, node):
+        if node.value is not None:
+            self.visit(node.value)
+            self.target(node.target, node)
+            if self.tainted(node.value) and isinstance(node.target, ast.Name):
+                self.live.add(node.target.id)
+
+    def visit_AugAssign(self, node):
+        self.visit(node.value)
+        t = node.target
+        if isinstance(t, ast.Name):
+            if t.id in self.live:
+                self.note(node, "in-place operator on " + t.id)
+        else:
+            self.target(t, node)
+
+    def visit_Delete(self, node):
+        for t in node.targets:
+            self.target(t, node)
+
+    def visit_For(self, node):
+        self.visit(node.iter)
+        if self.tainted(node.iter):
+            self.bind(node.target)
+        old, self._in_loop = self._in_loop, True
+        for st in node.body + node.orelse:
+            self.visit(st)
+        self._in_loop = old
+
+    def visit_While(self, node):
+        old, self._in_loop = self._in_loop, True
+        self.generic_visit(node)
+        self._in_loop = old
+
+    def visit_With(self, node):
+        for it in node.items:
+            self.visit(it.context_expr)
+            if it.optional_vars is not None and self.tainted(it.context_expr):
+                self.bind(it.optional_vars)
+        for st in node.body:
+            self.visit(st)
+
+    def visit_comp(self, node):
+        saved = set(self.live)
+        for g in node.generators:
+            self.visit(g.iter)
+            if self.tainted(g.iter):
+                self.bind(g.target)
+            for c in g.ifs:
+                self.visit(c)
+        if isinstance(node, ast.DictComp):
+            self.visit(node.key); self.visit(node.value)
+        else:
+            self.visit(node.elt)
+        self.live = saved
+
+    visit_ListComp = visit_SetComp = visit_GeneratorExp = visit_DictComp = visit_comp
+
+    def visit_NamedExpr(self, node):
+        self.visit(node.value)
+        if self.tainted(node.value):
+            self.live.add(node.target.id)
+
+    def visit_Call(self, node):
+        f = node.func
+        name = self.dotted(f)
+        args = list(node.args) + [k.value for k in node.keywords]
+        live_args = [a for a in args if self.tainted(a)]
+        for k in node.keywords:
+            if k.arg == "out" and self.tainted(k.value):
+                self.note(node, "out= names " + ast.unparse(k.value))
+        if name in ("setattr", "delattr", "object.__setattr__", "object.__delattr__") and live_args:
+            self.note(node, name + " on " + ast.unparse(live_args[0]))
+        elif isinstance(f, ast.Attribute) and self.tainted(f.value):
+            if f.attr in _MUTATORS:
+                self.note(node, "mutating call " + ast.unparse(f))
+            elif f.attr.startswith("_") and not f.attr.startswith("__"):
+                self.escapes.append((self.where, ast.unparse(f)))      # private helper of the observed object
+        elif isinstance(f, ast.Name) and f.id in self.local_funcs:
+            self.calls_local.append((f.id, [self.tainted(a) for a in node.args]))
+        elif live_args and name not in _FRESH_FUNCS and name not in _ALIAS_FUNCS \
+                and not (isinstance(f, ast.Attribute) and isinstance(f.value, ast.Call) and self.dotted(f.value.func) == "super"):
+            self.escapes.append((self.where, (name or ast.unparse(f)) + "(" + ", ".join(ast.unparse(a) for a in live_args) + ")"))
+        self.generic_visit(node)
+
+
+def t16_observer_effects():
+    item = "T16"
+    import glob
+    observers, stores, escapes = [], [], []
+
+    def analyse(fn, where, live, local_funcs=None):
+        ef = _Effects(item, where, live, local_funcs or {}).run(fn)
+        stores.extend(ef.stores); escapes.extend(ef.escapes)
+        return ef
+
+    for path in sorted(glob.glob(os.path.join(REPO, "nir", "ir", "*.py"))):
+        rel = os.path.relpath(path, REPO)
+        tree = ast.parse(_src(rel))
+        for cls in [n for n in tree.body if isinstance(n, ast.ClassDef)]:
+            last = {}
+            for sub in cls.body:
+                if isinstance(sub, ast.FunctionDef):
+                    last[sub.name] = sub
+            for nm in ("to_dict", "inputs", "outputs", "_check_types"):
+                fn = last.get(nm)
+                if fn is None or (nm != "to_dict" and cls.name != "NIRGraph"):
+                    continue
+                if not fn.args.args or fn.args.args[0].arg != "self":
+                    raise Refusal(item, f"{cls.name}.{nm} does not take self first")
+                observers.append(f"{cls.name}.{nm}")
+                analyse(fn, f"{cls.name}.{nm}", {"self"})
+    stree = ast.parse(_src("nir/serialization.py"))
+    w = _find_func(stree, "write")
+    if w is None or len(w.args.args) != 2:
+        raise Refusal(item, "serialization.write(filename, graph) not found")
+    gname = w.args.args[1].arg
+    local = {sub.name: sub for sub in ast.walk(w) if isinstance(sub, ast.FunctionDef) and sub is not w}
+    observers.append("write")
+    ef = analyse(w, "write", {gname}, local)
+    # nested helpers: analysed with exactly those parameters live that some call site passes a live object for
+    # (the recursive calls inside the helper pass parts of its own parameters, so a fixed point over the call sites)
+    live_params = {nm: set() for nm in local}
+    pending = list(ef.calls_local)
+    for _ in range(8):
+        grew = False
+        for nm, flags in pending:
+            ps = [a.arg for a in local[nm].args.args]
+            for pn, fl in zip(ps, flags):
+                if fl and pn not in live_params[nm]:
+                    live_params[nm].add(pn); grew = True
+        pending = []
+        for nm, fn in local.items():
+            e2 = _Effects(item, f"write.{nm}", live_params[nm], local).run(fn)
+            pending.extend(e2.calls_local)
+        if not grew:
+            break
+    for nm, fn in local.items():
+        analyse(fn, f"write.{nm}", live_params[nm], local)
+    # state that outlives a call and can be shared between the results of separate calls (C17: separate reads are independent):
+    # mutable default arguments, memoising decorators, `global`/`nonlocal` rebinding at module level, memory maps of the file,
+    # module-level containers mutated from inside a function
+    shared = []
+    for path in sorted(glob.glob(os.path.join(REPO, "nir", "**", "*.py"), recursive=True)):
+        rel = os.path.relpath(path, REPO)
+        tree = ast.parse(_src(rel))
+        D = ExprT(item, "num", {})
+        dn = lambda e: (D.dotted(e) if isinstance(e, (ast.Name, ast.Attribute)) else None)
+        module_mut = set()
+        for st in tree.body:
+            if isinstance(st, (ast.Assign, ast.AnnAssign)) and st.value is not None and \
+                    (isinstance(st.value, (ast.Dict, ast.List, ast.Set, ast.ListComp, ast.DictComp, ast.SetComp)) or
+                     (isinstance(st.value, ast.Call) and dn(st.value.func) in ("dict", "list", "set", "defaultdict", "collections.defaultdict",
+                                                                             "OrderedDict", "collections.OrderedDict", "WeakValueDictionary",
+                                                                             "weakref.WeakValueDictionary"))):
+                for t in (st.targets if isinstance(st, ast.Assign) else [st.target]):
+                    if isinstance(t, ast.Name) and t.id != "__all__" and not t.id.startswith("__all"):
+                        module_mut.add(t.id)
+        for fn in [n for n in ast.walk(tree) if isinstance(n, (ast.FunctionDef, ast.AsyncFunctionDef, ast.Lambda))]:
+            nm = getattr(fn, "name", "<lambda>")
+            for d in list(fn.args.defaults) + [d for d in fn.args.kw_defaults if d is not None]:
+                if isinstance(d, (ast.Dict, ast.List, ast.Set, ast.ListComp, ast.DictComp, ast.SetComp)) or \
+                        (isinstance(d, ast.Call) and dn(d.func) not in ("field", "dataclasses.field", "tuple", "frozenset")):
+                    shared.append((f"{rel}:{nm}", "mutable default argument " + ast.unparse(d)))
+            for dec in getattr(fn, "decorator_list", []):
+                dd = dn(dec.func if isinstance(dec, ast.Call) else dec) or ""
+                if dd.split(".")[-1] in ("lru_cache", "cache", "cached_property", "memoize"):
+                    shared.append((f"{rel}:{nm}", "memoised by @" + dd))
+            if isinstance(fn, ast.Lambda):
+                continue
+            local_names = {a.arg for a in fn.args.args + fn.args.kwonlyargs} | \
+                {t.id for n in ast.walk(fn) for t in ast.walk(n) if isinstance(n, (ast.Assign, ast.For, ast.comprehension, ast.With))
+                 and isinstance(t, ast.Name) and isinstance(t.ctx, ast.Store)}
+            for n in ast.walk(fn):
+                if isinstance(n, (ast.Global, ast.Nonlocal)) and isinstance(n, ast.Global):
+                    shared.append((f"{rel}:{nm}", "global " + ", ".join(n.names)))
+                if isinstance(n, ast.Call) and (dn(n.func) or "").split(".")[-1] in ("memmap", "open_memmap", "frombuffer", "mmap"):
+                    shared.append((f"{rel}:{nm}", "maps a buffer: " + dn(n.func)))
+                if isinstance(n, ast.Call) and isinstance(n.func, ast.Attribute) and n.func.attr in _MUTATORS and \
+                        isinstance(n.func.value, ast.Name) and n.func.value.id in module_mut and n.func.value.id not in local_names:
+                    shared.append((f"{rel}:{nm}", "mutates module-level " + n.func.value.id))
+                if isinstance(n, (ast.Assign, ast.AugAssign, ast.Delete)):
+                    for t in (n.targets if not isinstance(n, ast.AugAssign) else [n.target]):
+                        if isinstance(t, ast.Subscript) and isinstance(t.value, ast.Name) and t.value.id in module_mut \
+                                and t.value.id not in local_names:
+                            shared.append((f"{rel}:{nm}", "stores into module-level " + t.value.id))
+        for cls in [n for n in ast.walk(tree) if isinstance(n, ast.ClassDef)]:
+            for st in cls.body:
+                if isinstance(st, (ast.Assign, ast.AnnAssign)) and st.value is not None and \
+                        isinstance(st.value, (ast.Dict, ast.List, ast.Set)):
+                    shared.append((f"{rel}:{cls.name}", "mutable class-level default " + ast.unparse(st)))
+    need = ["NIRNode.to_dict", "NIRGraph.to_dict", "NIRGraph.inputs", "NIRGraph.outputs", "NIRGraph._check_types", "write"]
+    miss = [n for n in need if n not in observers]
+    if miss:
+        raise Refusal(item, f"observers not found: {miss}")
+    row = lambda r: f"({lean_str(r[0])}, {lean_str(r[1])})"
+    dedup = lambda xs: sorted(set(xs))
+    txt = HEADER + "\nnamespace NirVerif.Generated.ObserverEffects\n\n" \
+        "/-- the observers of C17 whose bodies were read (class-specific `to_dict` overrides included) -/\n" \
+        "def observers : List String :=\n  [" + ", ".join(lean_str(o) for o in observers) + "]\n\n" \
+        "/-- statements that store through an object reachable from the observed graph: assignments / deletions / in-place operators\n" \
+        "    whose target is rooted in `self` (or `graph`) or in a local alias of it, calls of mutating container / array methods on\n" \
+        "    such an object, `setattr`/`delattr`, `out=` -/\n" \
+        "def stores : List (String × String) :=\n  [" + ", ".join(row(r) for r in dedup(stores)) + "]\n\n" \
+        "/-- calls that hand an object reachable from the graph to code outside the table of known readers (or to a private helper of\n" \
+        "    the object) -/\n" \
+        "def escapes : List (String × String) :=\n  [" + ", ".join(row(r) for r in dedup(escapes)) + "]\n\n" \
+        "/-- state in `nir/` that outlives a call and could be shared between the results of separate calls: mutable default\n" \
+        "    arguments, memoising decorators, `global`, memory maps / buffer views, module-level containers mutated by a function,\n" \
+        "    mutable class-level defaults -/\n" \
+        "def sharedState : List (String × String) :=\n  [" + ", ".join(row(r) for r in dedup(shared)) + "]\n\nend NirVerif.Generated.ObserverEffects\n"
+    return {"ObserverEffects.lean": txt}
+
+ITEMS = {"T1": t1_fields, "T2": t2_whitelist, "T3": t3_file_modes, "T4": t4_conv_axis, "T5": t5_flatten, "T6": t6_lif, "T7": t7_cuba, "T8": t8_unique_name, "T9": t9_neuron_shapes, "T10": t10_guards, "T11": t11_dict_overrides, "T12": t12_graph_interface, "T13": t13_write_shape, "T14": t14_worklist, "T15": t15_check_errors, "T16": t16_observer_effects}
 
 
 def regenerate(out_dir=OUT, items=None):
